@@ -2186,17 +2186,33 @@ static int add_mapping_entry(vnaproperty_yaml_t *vymlp, int t_map,
 }
 
 /*
- * _vnaproperty_yaml_import: import properties from the given YAML document
+ * YAML_MAX_DEPTH: deepest nesting of maps and lists accepted on import
+ *
+ * Aliases let a YAML document contain a collection that (transitively)
+ * contains itself, e.g. "&a [*a]"; the bound keeps the recursion finite.
+ */
+#define YAML_MAX_DEPTH	1000
+
+/*
+ * yaml_import: import the subtree rooted at the given YAML node
  *   @vymlp:    common argument structure
  *   @rootptr:  address of property tree root
  *   @vp_node:  yaml node cast to void pointer
+ *   @depth:    number of enclosing maps and lists
  */
-int _vnaproperty_yaml_import(vnaproperty_yaml_t *vymlp,
-	vnaproperty_t **rootptr, void *vp_node)
+static int yaml_import(vnaproperty_yaml_t *vymlp,
+	vnaproperty_t **rootptr, void *vp_node, int depth)
 {
     yaml_document_t *document = vymlp->vyml_document;
     yaml_node_t *node = vp_node;
 
+    if (depth > YAML_MAX_DEPTH) {
+	_vnaproperty_yaml_error(vymlp, VNAERR_SYNTAX,
+		"%s (line %ld) error: properties nested too deeply "
+		"or recursive alias",
+		vymlp->vyml_filename, node->start_mark.line + 1);
+	return -1;
+    }
     switch (node->type) {
     case YAML_SCALAR_NODE:
 	/*
@@ -2254,7 +2270,7 @@ int _vnaproperty_yaml_import(vnaproperty_yaml_t *vymlp,
 			    vymlp->vyml_filename, strerror(errno));
 		    goto out;
 		}
-		if (_vnaproperty_yaml_import(vymlp, subtree, value) == -1) {
+		if (yaml_import(vymlp, subtree, value, depth + 1) == -1) {
 		    goto out;
 		}
 	    }
@@ -2285,7 +2301,7 @@ int _vnaproperty_yaml_import(vnaproperty_yaml_t *vymlp,
 			    vymlp->vyml_filename, strerror(errno));
 		    goto out;
 		}
-		if (_vnaproperty_yaml_import(vymlp, subtree, value) == -1) {
+		if (yaml_import(vymlp, subtree, value, depth + 1) == -1) {
 		    goto out;
 		}
 	    }
@@ -2298,6 +2314,18 @@ int _vnaproperty_yaml_import(vnaproperty_yaml_t *vymlp,
 
 out:
     return -1;
+}
+
+/*
+ * _vnaproperty_yaml_import: import properties from the given YAML document
+ *   @vymlp:    common argument structure
+ *   @rootptr:  address of property tree root
+ *   @vp_node:  yaml node cast to void pointer
+ */
+int _vnaproperty_yaml_import(vnaproperty_yaml_t *vymlp,
+	vnaproperty_t **rootptr, void *vp_node)
+{
+    return yaml_import(vymlp, rootptr, vp_node, 0);
 }
 
 /*
